@@ -746,11 +746,10 @@ def child_main(root: str, ops: list, seed: int, opts: dict | None = None) -> dic
                 sim.in_op = False
                 with sim.harness():
                     _undo_real_faults(sim, undo)
-            # a real-fs fault has "fired" when the code touched its target during the op
+            # a real-fs fault holds for the whole operation whatever API the code uses (or does not
+            # use) to look at the file: the operation was given a missing / unreadable / faulty file
             for idx, kindf, path, _s, _d in undo:
-                rel = sim.rel(path)
-                if rel in sim.touched:
-                    sim.fire(idx)
+                sim.fire(idx)
         outcomes.append(oc)
         sim.event("op_end", outcome=_outcome_digest(oc))
     if sim.tmpdir:
